@@ -3,3 +3,5 @@ pub mod aux;
 
 #[cfg(feature = "vdso")]
 pub(crate) mod vdso;
+#[cfg(all(tiny_std_verif, feature = "vdso"))]
+pub use vdso::verif_find_clock_gettime;
